@@ -4,10 +4,9 @@ the values of guard-refused (or underscore) attributes / items must be
 indistinguishable, and no refused value may occur in the output."""
 import itertools
 
-from vf.engine import Acc
+from vf.engine import Acc, hyp_run, shrink_failures
 
 ID = 'C05'
-EXHAUSTIVE = ('quick', 'thorough')
 RULE = ('channel catalogue: one template per way DTML reads an attribute or '
         'item of client data (client lookup, with, with only, attribute '
         'access in expressions, _.getattr, _[..].a, item access on custom '
@@ -22,7 +21,17 @@ RULE = ('channel catalogue: one template per way DTML reads an attribute or '
         'rule); every case is rendered twice with different values of the '
         'refused data.  Non-trivial: the case has >= 1 refused (object, '
         'name) or (sequence, index) reachable through the channel.  Cases '
-        'are distinct by construction.')
+        'are distinct by construction (the catalogue is enumerated '
+        'completely in both tiers).  Second part (checks/c05_gen.py): '
+        'Hypothesis-generated compositions - with / with only / in (batch, '
+        'skip_unauthorized, prefix, no_push_item) / let / if / try / '
+        'sub-templates nested to depth 3 around attribute, item, fmt= and '
+        'entity reads over an object graph (o, s[i], lst[i], .child, '
+        '.kids[j]) under a random policy refusing (role, index, attribute) '
+        'and (sequence, index); rendered on two graphs that differ exactly '
+        'in the values behind refused reads.  Non-trivial there: the guard '
+        'actually refused >= 1 read during the rendering; distinct by the '
+        'hash of (source, policy, client).')
 ASSUMPTIONS = [
     'the guard is the documented extension point: guarded_getattr / '
     'guarded_getitem supplied by the template class',
@@ -306,6 +315,15 @@ def channels():
     add('in-items-batch-skip', '[<dtml-in s size=3 orphan=0 '
         'skip_unauthorized><dtml-var pub>;</dtml-in>]', kind='item',
         skip=True)
+    # reverse / sort work on a copy of the client sequence
+    add('in-items-reverse', '[<dtml-in s reverse><dtml-var pub>;</dtml-in>]',
+        kind='item')
+    add('in-items-reverse-expr', '[<dtml-in s reverse_expr="1">'
+        '<dtml-var pub>;</dtml-in>]', kind='item')
+    add('in-items-sort', '[<dtml-in s sort=idn><dtml-var pub>;</dtml-in>]',
+        kind='item')
+    add('in-items-sort-batch', '[<dtml-in s sort=idn size=3 orphan=0>'
+        '<dtml-var pub>;</dtml-in>]', kind='item')
     add('in-items-list', '[<dtml-in lst><dtml-var pub>;</dtml-in>]',
         kind='item', seqname='builtin')
     add('in-items-list-skip', '[<dtml-in lst skip_unauthorized>'
@@ -568,10 +586,38 @@ def run_case(case):
 
 def plan(tier, seed):
     all_cases = list(cases())
-    return [dict(cases=all_cases[i::8]) for i in range(8)]
+    n = 1500 if tier == 'quick' else 40000
+    return [dict(cases=all_cases[i::8]) for i in range(8)] + \
+        [dict(gen=True, seed=seed * 1000 + i, n=n) for i in range(16)]
+
+
+def run_gen_shard(shard):
+    from checks import c05_gen
+    acc = Acc(ID, sample_every=211)
+    strat = c05_gen.case()
+
+    def one(c):
+        bad, info = c05_gen.check(c)
+        acc.case(c, info['refused'] > 0,
+                 klass=['gen', 'gen:outcome:' + info['outcome'],
+                        'gen:refused-and-rendered' if info['refused'] and
+                        info['outcome'] == 'text' else 'gen:other',
+                        'gen:allowed-data-shown' if info['ok']
+                        else 'gen:no-allowed-data'])
+        if bad:
+            acc.fail(bad[0], c, bad[1])
+    hyp_run(strat, one, shard['n'], shard['seed'])
+
+    def bucket_of(c):
+        b = c05_gen.check(c)[0]
+        return b[0] if b else None
+    shrink_failures(acc, strat, bucket_of, shard['seed'])
+    return acc.result()
 
 
 def run_shard(shard):
+    if shard.get('gen'):
+        return run_gen_shard(shard)
     acc = Acc(ID, sample_every=29)
     for case in shard['cases']:
         bad = run_case(case)
@@ -588,4 +634,7 @@ def run_shard(shard):
 
 
 def replay(case):
+    if 'src' in case:
+        from checks import c05_gen
+        return c05_gen.check(case)[0]
     return run_case(case)
